@@ -26,7 +26,7 @@ CONFS = sorted({1e-6, 1e-3, 0.01, 0.05, 0.1, 0.25, 0.5, 0.6, 0.75, 0.8, 0.9, 0.9
                 1 - 1e-5, 1 - 1e-6, 1 - 1e-8, 1 - 1e-10, 1 - 1e-12, 0.3, 0.4, 0.68})  # fmt: skip
 METHODS = ["agresti-coull", "wald"]
 UNKNOWN = ["wilson", "clopper-pearson", "bogus", "", "agre\u017fti-coull", "agre\ufb06i-coull", "ｗａｌｄ", "wald\u200b", "wa\u0131d", "agresti\u2010coull", "agresti_coull",
-           "agresti coull", "wal", "waldo", "agresti-coull-wald", "\u212aald", "ac"]
+           "agresti coull", "wal", "waldo", "agresti-coull-wald", "\u212aald", "ac", "a", "-", "agresti", "coull", "ald", "w", "W", "None", "0"]
 
 
 def textbook(n, p, conf, method, z):
